@@ -72,6 +72,8 @@ type Map struct {
 type Chan struct {
 	closed bool
 	ID     int
+	cap    int
+	buf    []Value
 }
 
 type Closure struct {
